@@ -1,7 +1,8 @@
 /-
-  Obligation: the property names the real decoder switches on, and the names the real encoder
-  always writes, are the ones the Lean codec model and the C16/C17 theorems are stated for —
-  proved against the tables *regenerated from /repo's sources*, not against a frozen copy.
+  Obligation: the property names the real decoder dispatches on at every position of the document,
+  and the names the real encoder always writes, are the ones the Lean codec model and the C16/C17
+  theorems are stated for — proved against the tables *regenerated from /repo's sources*, not
+  against a frozen copy.
 -/
 import LDEval.Generated.Facts
 import LDEval.Properties.C16
@@ -9,41 +10,64 @@ import LDEval.Properties.C17
 
 namespace LD.Obligations
 
-def decNames (fn : String) : List String := ((Generated.decoderProps.lookup fn).getD []).map (·.1)
-def encAlways (fn : String) : List String :=
-  (((Generated.encoderProps.lookup fn).getD []).filter (fun p =>
-    p.2 == "always" || p.2 == "always:writeTargets" || p.2 == "always:writeStringArray" ||
-    p.2 == "always:writeSegmentTargets")).map (·.1)
+def sameSet (a b : List String) : Bool := a.all (b.contains ·) && b.all (a.contains ·)
 
-/-- The decoder's known property names, per object, in source order. -/
-theorem flag_known : decNames "readFeatureFlag" = C17.flagKnown := by decide
-theorem segment_known : decNames "readSegment" = C17.segmentKnown := by decide
-theorem prereq_known : decNames "readPrerequisites" = C17.prereqKnown := by decide
-theorem target_known : decNames "readTargets" = C17.targetKnown := by decide
-theorem clause_known : decNames "readClauses" = C17.clauseKnown := by decide
-theorem wv_known : decNames "readRollout/1" = C17.wvKnown := by decide
-theorem rollout_known : decNames "readRollout" = C17.rolloutKnown := by decide
-theorem vr_known : decNames "readVariationOrRollout" = C17.vrKnown := by decide
-theorem rule_known : decNames "readFlagRules" = C17.ruleKnown := by decide
-theorem csa_known : decNames "readClientSideAvailability" = C17.csaKnown := by decide
-theorem migration_known : decNames "readMigration" = C17.migrationKnown := by decide
-theorem segTarget_known : decNames "readSegmentTargets" = C17.segTargetKnown := by decide
-theorem segRule_known : decNames "readSegment/1" = C17.segRuleKnown := by decide
+def flagDec (path : String) : List String := (Generated.flagDecoderKnown.lookup path).getD ["<no such object>"]
+def segDec (path : String) : List String := (Generated.segmentDecoderKnown.lookup path).getD ["<no such object>"]
+def flagEncAlways (path : String) : List String := (Generated.flagEncoderAlways.lookup path).getD []
+def segEncAlways (path : String) : List String := (Generated.segmentEncoderAlways.lookup path).getD []
+
+/-- The decoder's known property names, at every object position. -/
+theorem flag_known : sameSet (flagDec "flag") C17.flagKnown = true := by decide
+theorem segment_known : sameSet (segDec "segment") C17.segmentKnown = true := by decide
+theorem prereq_known : sameSet (flagDec "flag/prerequisites[]") C17.prereqKnown = true := by decide
+theorem target_known : sameSet (flagDec "flag/targets[]") C17.targetKnown = true ∧
+    sameSet (flagDec "flag/contextTargets[]") C17.targetKnown = true := by decide
+theorem clause_known : sameSet (flagDec "flag/rules[]/clauses[]") C17.clauseKnown = true ∧
+    sameSet (segDec "segment/rules[]/clauses[]") C17.clauseKnown = true := by decide
+theorem wv_known : sameSet (flagDec "flag/rules[]/rollout/variations[]") C17.wvKnown = true ∧
+    sameSet (flagDec "flag/fallthrough/rollout/variations[]") C17.wvKnown = true := by decide
+theorem rollout_known : sameSet (flagDec "flag/rules[]/rollout") C17.rolloutKnown = true ∧
+    sameSet (flagDec "flag/fallthrough/rollout") C17.rolloutKnown = true := by decide
+theorem vr_known : sameSet (flagDec "flag/fallthrough") C17.vrKnown = true := by decide
+theorem rule_known : sameSet (flagDec "flag/rules[]") C17.ruleKnown = true := by decide
+theorem csa_known : sameSet (flagDec "flag/clientSideAvailability") C17.csaKnown = true := by decide
+theorem migration_known : sameSet (flagDec "flag/migration") C17.migrationKnown = true := by decide
+theorem segTarget_known : sameSet (segDec "segment/includedContexts[]") C17.segTargetKnown = true ∧
+    sameSet (segDec "segment/excludedContexts[]") C17.segTargetKnown = true := by decide
+theorem segRule_known : sameSet (segDec "segment/rules[]") C17.segRuleKnown = true := by decide
+/-- There is no object position the model does not know about. -/
+theorem no_other_objects :
+    Generated.flagDecoderKnown.map (·.1) =
+      ["flag", "flag/clientSideAvailability", "flag/contextTargets[]", "flag/fallthrough",
+       "flag/fallthrough/rollout", "flag/fallthrough/rollout/variations[]", "flag/migration",
+       "flag/prerequisites[]", "flag/rules[]", "flag/rules[]/clauses[]", "flag/rules[]/rollout",
+       "flag/rules[]/rollout/variations[]", "flag/targets[]"] ∧
+    Generated.segmentDecoderKnown.map (·.1) =
+      ["segment", "segment/excludedContexts[]", "segment/includedContexts[]", "segment/rules[]",
+       "segment/rules[]/clauses[]"] := by decide
 
 /-- Every legacy property the wire schema requires (C16.flagRequired / segmentRequired) is written
 unconditionally by the real encoder. -/
-theorem flag_required_always_written :
-    ∀ k ∈ C16.flagRequired, k ∈ encAlways "marshalFeatureFlagToWriter" := by decide
+theorem flag_required_always_written : ∀ k ∈ C16.flagRequired, k ∈ flagEncAlways "flag" := by decide
 theorem segment_required_always_written :
-    ∀ k ∈ C16.segmentRequired, k ∈ encAlways "marshalSegmentToWriter" := by decide
+    ∀ k ∈ C16.segmentRequired, k ∈ segEncAlways "segment" := by decide
 
-/-- Reader primitives at the null-tolerant positions of C17 (and the one intolerant list). -/
+/-- Reader primitives at the null-tolerant positions of C17, and the one intolerant list. -/
 theorem rollout_variations_not_null_tolerant :
-    ((Generated.decoderProps.lookup "readRollout").getD []).lookup "variations" = some "Array" := by decide
+    "flag/rules[]/rollout/variations : Array" ∈ Generated.flagDecoder ∧
+    "flag/fallthrough/rollout/variations : Array" ∈ Generated.flagDecoder := by decide
 theorem list_readers_null_tolerant :
-    ∀ fn ∈ ["readPrerequisites", "readTargets", "readFlagRules", "readClauses", "readSegmentTargets",
-             "readStringList", "readValueList"],
-      ((Generated.decoderOpeners.lookup fn).getD "") = "ArrayOrNull Object" ∨
-      ((Generated.decoderOpeners.lookup fn).getD "") = "ArrayOrNull" := by decide
+    ∀ l ∈ ["flag/prerequisites : ArrayOrNull", "flag/targets : ArrayOrNull",
+           "flag/contextTargets : ArrayOrNull", "flag/rules : ArrayOrNull",
+           "flag/rules[]/clauses : ArrayOrNull", "flag/rules[]/clauses[]/values : ArrayOrNull",
+           "flag/targets[]/values : ArrayOrNull", "flag/variations : ArrayOrNull"],
+      l ∈ Generated.flagDecoder := by decide
+theorem segment_list_readers_null_tolerant :
+    ∀ l ∈ ["segment/included : ArrayOrNull", "segment/excluded : ArrayOrNull",
+           "segment/includedContexts : ArrayOrNull", "segment/excludedContexts : ArrayOrNull",
+           "segment/rules : ArrayOrNull", "segment/rules[]/clauses : ArrayOrNull",
+           "segment/includedContexts[]/values : ArrayOrNull"],
+      l ∈ Generated.segmentDecoder := by decide
 
 end LD.Obligations
